@@ -83,17 +83,17 @@ Call(i, t, kwargs) ==
 Ret(i, t) ==
     /\ phase = "running" /\ <<i, t>> \in called \ (done \cup failed)
     /\ done' = done \cup {<<i, t>>}
-    /\ stored' = stored \cup {<<i, t>>}
-    /\ UNCHANGED <<d, inp, phase, cfg, den, called, failed>>
+    /\ UNCHANGED <<d, inp, phase, cfg, den, called, failed, stored>>
 
 Fail(i, t) ==
     /\ phase = "running" /\ <<i, t>> \in called \ (done \cup failed)
     /\ failed' = failed \cup {<<i, t>>}
     /\ UNCHANGED <<d, inp, phase, cfg, den, called, done, stored>>
 
-Finish == phase' = "idle" /\ UNCHANGED <<d, inp, cfg, den, called, done, failed, stored>>
+Finish == phase' = "idle" /\ UNCHANGED <<d, inp, cfg, den, called, done, failed>>
 
-(* successful return: every selected element of every function is complete; results are the denotation *)
+(* successful return: every selected element of every function is complete; results are the denotation; *)
+(* everything computed is now stored (file storage wrote it on the way, memory storage persists here)    *)
 Return(results, loaded) ==
     /\ phase = "running" /\ failed = {}
     /\ \A i \in cfg.F : Complete(i)
@@ -101,14 +101,34 @@ Return(results, loaded) ==
     /\ cfg.fixed = <<>> =>
           \A o \in UNION {OutputsOf(d, i) : i \in cfg.F} : PHas(results, o) /\ PGet(results, o) = den[o]
     /\ \A k \in DOMAIN loaded : loaded[k][2] = den[loaded[k][1]]      \* what load_outputs reads back afterwards
+    /\ stored' = stored \cup done
     /\ Finish
 
-(* a failure surfaces: the run ends after at least one user function raised; nothing is running any more *)
+(* a failure surfaces: the run ends after at least one user function raised *)
 Raise ==
     /\ phase = "running" /\ failed # {}
+    /\ UNCHANGED stored
     /\ Finish
+
+(* row-major linear index of position t of function i over its EXTERNAL shape *)
+ExtPos(i, t) == LET fn == d.funcs[i]
+                    ks == SelectSeq([k \in DOMAIN t |-> k], LAMBDA k : ExtMask(fn)[k])
+                IN  [m \in DOMAIN ks |-> t[ks[m]]]
+LinOf(i, t) == LET sh == ExtShape(d, den, i)  te == ExtPos(i, t)
+                   RECURSIVE L(_, _)
+                   L(k, acc) == IF k > Len(sh) THEN acc ELSE L(k + 1, acc * sh[k] + te[k])
+               IN  IF Len(t) = 0 THEN 0 ELSE L(1, 0)
+(* After an interruption (the process died, or the run raised) the only state that survives is what is completely *)
+(* stored: `disk` = set of <<output name, linear index>> whose stored value is complete (observed by the harness   *)
+(* from the run folder).  An element is stored iff every output of its function is complete at its index.        *)
+StoredFromDisk(disk) == {e \in AllElements : \A o \in OutputsOf(d, e[1]) : <<o, LinOf(e[1], e[2])>> \in disk}
+Interrupt(disk) ==
+    /\ phase \in {"running", "idle"}
+    /\ phase' = "idle" /\ stored' = StoredFromDisk(disk)
+    /\ called' = {} /\ done' = {} /\ failed' = {}
+    /\ UNCHANGED <<d, inp, cfg, den>>
 
 (* invariants *)
 TypeOK == phase \in {"idle", "running"} /\ done \subseteq called /\ failed \subseteq called /\ done \cap failed = {}
-DoneStored == done \subseteq stored
+DoneStored == phase = "running" => called \cap stored = {}      \* nothing stored is recomputed
 =============================================================================
